@@ -215,7 +215,9 @@ func (r *Run) Violate(kind, detail string, witness map[string]any) {
 
 func (f Finding) accepts(v Violation) bool {
 	if f.Kind != v.Kind {
-		return false
+		if ok, err := regexp.MatchString("^(?:"+f.Kind+")$", v.Kind); err != nil || !ok {
+			return false
+		}
 	}
 	for k, re := range f.Match {
 		val := fmt.Sprint(v.Witness[k])
